@@ -355,6 +355,31 @@ def check(run):
             'original_xml': render_xml(cases[i]), 'replay': 'bin/check C11 --replay <this file>'})
     if unknown:
         run.notes.append('%d failing inputs in all, %d distinct after shrinking the first 12' % (len(unknown), len(reported)))
+    # reading order: the attribute values may not depend on whether the content (which refers to the same
+    # entities) was read before them -- expansion results are per use (attribute value: 3.3.3 applies;
+    # content: it does not), never per entity name
+    if okr:
+        sel = [c for c in cases if any(d[0] == 'e' for d in c['decls'])]
+        run.rng.shuffle(sel)
+        sel = sel[:1500 if run.tier == 'quick' else 20000]
+        def with_content(c):
+            x = render_xml(c)
+            assert x.endswith('/>')
+            return x[:-2] + '>' + ''.join('&%s;' % d[1] for d in c['decls'] if d[0] == 'e') + '</%s>' % c['el']
+        xs = [with_content(c) for c in sel]
+        rc, plain = lib.run_bin(lib.rust_bin(), ['attr'], [lib.enc(x) for x in xs], timeout=1200, shards=lib.NPROC)
+        rc, cfirst = lib.run_bin(lib.rust_bin(), ['attr'], ['c ' + lib.enc(x) for x in xs], timeout=1200, shards=lib.NPROC)
+        nrep = 0
+        for x, a, b in zip(xs, plain, cfirst):
+            run.evaluations += 1
+            run.count('reading-order:' + ('accepted' if a.startswith('ok') else 'refused'))
+            if a.startswith('ok'):
+                run.nontrivial.add(('reading-order', x))
+            if a.startswith('ok') and b.startswith('ok') and a != b and nrep < 3:
+                nrep += 1
+                run.failing_inputs.append({'property': 'C11', 'class': 'reading-order',
+                    'what': 'attribute values of %s depend on what was read before: `%s` when read first, `%s` after the content has been read' % (json.dumps(x), a, b),
+                    'xml': x, 'attributes_first': a, 'content_first': b})
     # entity cycles: refused when the document is built since commits d2b7d1e / ed2c470 (was defect D09 of C03)
     if okr:
         cyc = {'decls': [('e', 'x', [('r', 'y')]), ('e', 'y', [('r', 'x')])], 'el': 'e', 'attrs': [('a', [('r', 'x')])]}
